@@ -1,6 +1,6 @@
 (* C10 — property theorems only: statement, `exact <lemma>`, Print Assumptions. *)
 From GL Require Import Stack.Registry Stack.RegSpec Stack.StackApi
-  Stack.RegistryFacts Stack.StackApiFacts Stack.CallContractFacts.
+  Stack.RegistryFacts Stack.StackApiFacts Stack.CallContractFacts Stack.StaleFacts.
 
 (* Rr r (pre ++ l) lim: the registry r holds the callers' cells pre (LocalBase = len pre) followed by
    the activation's list l, and can hold lim cells.
@@ -82,3 +82,36 @@ Theorem call_contract : forall r pre l fn args junk results nret fails lim,
              Rr r' (pre ++ l ++ (if fails then [] else adjust nret results)) lim.
 Proof. exact call_contract_lemma. Qed.
 Print Assumptions call_contract.
+
+(* What sits in the array ABOVE the top cannot be observed: two registries that hold the same callers'
+   cells and the same list (and may differ arbitrarily above the top: dead temporaries of a calling
+   Lua function, junk of finished callees) give the same log and the same live cells for every
+   script in the domain. *)
+Theorem dead_cells_unobservable : forall ops r1 r2 pre l lim,
+  Rr r1 (pre ++ l) lim -> Rr r2 (pre ++ l) lim ->
+  L_dom l ops = true -> L_fits (len pre) lim l ops = true ->
+  fst (arun r1 (len pre) ops) = fst (arun r2 (len pre) ops) /\
+  live (snd (arun r1 (len pre) ops)) = live (snd (arun r2 (len pre) ops)).
+Proof. exact dead_cells_unobservable_lemma. Qed.
+Print Assumptions dead_cells_unobservable.
+
+(* initCallFrame of a fixed-arity Lua function (np parameters, nregs registers), called with args while
+   the caller holds rest in the registers above them: the callee's frame is exactly its first np
+   arguments, nil up to nregs registers - a represented list, whatever rest is ... *)
+Theorem lua_frame_init : forall r pre fn args rest lim np nregs,
+  Rr r (pre ++ fn :: args ++ rest) lim -> 0 <= np <= nregs ->
+  len pre + 1 + Z.max (len args) nregs <= lim ->
+  exists r', initLuaFixed r (len pre + 1) (len args) np nregs = Ok r' /\
+             Rr r' (pre ++ fn :: resizeL (resizeL args np) nregs) lim.
+Proof. exact initLuaFixed_ok. Qed.
+Print Assumptions lua_frame_init.
+
+(* ... although the top is lowered without clearing: every cell above the registers it sets to nil keeps
+   its content (the caller's dead temporaries stay in the array above the callee's frame) *)
+Theorem lua_frame_keeps_dead : forall r lb nargs np nregs,
+  0 <= lb -> 0 <= nargs -> 0 <= np ->
+  lb + Z.max (Z.max nargs np) nregs <= limit r ->
+  exists r', initLuaFixed r lb nargs np nregs = Ok r' /\ top r' = lb + nregs /\
+    forall i, lb + Z.max (Z.max nargs np) nregs <= i -> rd (arr r') i = rd (arr r) i.
+Proof. exact initLuaFixed_keeps_dead. Qed.
+Print Assumptions lua_frame_keeps_dead.
